@@ -13,7 +13,7 @@ import FcProofs.Lemmas.MergeStep
 import FcProofs.Lemmas.MergeStructured
 import FcProofs.Lemmas.MergeDecomposition
 namespace Fc
-open Spec
+open Fc.C06 Fc.C06.Spec
 
 /-- **C06 (index remapping).**  For every duplicate map `dups` (entry `i` = `some j`: local point `i`
     of the later piece is global point `j`) and every offset (= number of points merged so far):
@@ -71,33 +71,33 @@ theorem C06_lexsort_sorts (pts : List (List Int)) (d : Nat) (hd : ∀ p ∈ pts,
     * a coordinate occurs in the merged mesh iff it occurs in `f1` or `f2`, and occurs once;
     * the result satisfies `PieceOk` again (so the step can be iterated). -/
 theorem C06_merge_step_partial (srt : List (List Int) → List Nat) (hsrt : SortsRows srt)
-    (f1 f2 : MeshFields) (d : Nat) (cnames pnames : List String) (rsC rsP : String → Nat)
-    (h1 : PieceOk f1 d cnames pnames rsC rsP) (h2 : PieceOk f2 d cnames pnames rsC rsP)
+    (f1 f2 : MeshFields) (d : Nat) (cnames pnames : List String) (rsC rsP : String → Nat) (dtC dtP : String → DType)
+    (h1 : PieceOk f1 d cnames pnames rsC rsP dtC dtP) (h2 : PieceOk f2 d cnames pnames rsC rsP dtC dtP)
     (hnew : bringsNewPoint f1.mesh.points f2.mesh.points = true) :
     (∀ ct, cellItemsOf (merge1 srt f1 f2) cnames ct = cellItemsOf f1 cnames ct ++ cellItemsOf f2 cnames ct) ∧
     pointItemsOf (merge1 srt f1 f2) pnames =
       pointItemsOf f1 pnames ++ (filterExternal (stepDups srt f1 f2)).map (pointItemBy f2 pnames) ∧
     (∀ q, q ∈ (merge1 srt f1 f2).mesh.points ↔ q ∈ f1.mesh.points ∨ q ∈ f2.mesh.points) ∧
     (merge1 srt f1 f2).mesh.points.Nodup ∧
-    PieceOk (merge1 srt f1 f2) d cnames pnames rsC rsP := by
-  have hinv := stepDups_inv srt hsrt f1 f2 d cnames pnames rsC rsP h2
+    PieceOk (merge1 srt f1 f2) d cnames pnames rsC rsP dtC dtP := by
+  have hinv := stepDups_inv srt hsrt f1 f2 d cnames pnames rsC rsP dtC dtP h2
   have hfilt := filter_nonempty_of_new _ _ _ hinv hnew
   rw [merge1_eq_stepResult srt f1 f2 hfilt]
-  have hok := stepResult_ok srt f1 f2 d cnames pnames rsC rsP h1 h2 hinv
-  exact ⟨cellItemsOf_step srt f1 f2 d cnames pnames rsC rsP h1 h2 hinv,
-    pointItemsOf_step srt f1 f2 d cnames pnames rsC rsP h1 h2 hinv,
+  have hok := stepResult_ok srt f1 f2 d cnames pnames rsC rsP dtC dtP h1 h2 hinv
+  exact ⟨cellItemsOf_step srt f1 f2 d cnames pnames rsC rsP dtC dtP h1 h2 hinv,
+    pointItemsOf_step srt f1 f2 d cnames pnames rsC rsP dtC dtP h1 h2 hinv,
     fun q => mem_mergedPoints _ _ _ hinv q, hok.nodup, hok⟩
 
 /-- **C06 (finding F3, in general).**  Whenever every point of the next piece already exists in the
     mesh merged so far, `_merge` returns the earlier mesh unchanged — whatever cells and cell data
     the piece carries. (This is the negation of the hypothesis of `C06_merge_step_partial`.) -/
 theorem C06_merge_drops_piece_without_new_point (srt : List (List Int) → List Nat) (hsrt : SortsRows srt)
-    (f1 f2 : MeshFields) (d : Nat) (cnames pnames : List String) (rsC rsP : String → Nat)
-    (h2 : PieceOk f2 d cnames pnames rsC rsP)
+    (f1 f2 : MeshFields) (d : Nat) (cnames pnames : List String) (rsC rsP : String → Nat) (dtC dtP : String → DType)
+    (h2 : PieceOk f2 d cnames pnames rsC rsP dtC dtP)
     (hnew : bringsNewPoint f1.mesh.points f2.mesh.points = false) :
     merge1 srt f1 f2 = f1 :=
   merge1_eq_left srt f1 f2
-    (filter_empty_of_not_new _ _ _ (stepDups_inv srt hsrt f1 f2 d cnames pnames rsC rsP h2) hnew)
+    (filter_empty_of_not_new _ _ _ (stepDups_inv srt hsrt f1 f2 d cnames pnames rsC rsP dtC dtP h2) hnew)
 
 /-
   Full-strength statement (FALSE for the current code, see FcProofs/Witness/C06.lean, finding F3):
@@ -113,11 +113,12 @@ theorem C06_merge_drops_piece_without_new_point (srt : List (List Int) → List 
     every point of the whole data set is in some piece.  If **every later piece brings at least one
     new point** (`f3Class pieces = false`), then `merge(*pieces)` has, for every cell type, exactly the
     cells of the whole data set (up to reordering, with multiplicity), exactly its points — each
-    once — with their field values. -/
+    once — with their field values, and every field keeps the numeric type it has in the pieces
+    (`PieceOk … dtC dtP` of the result). -/
 theorem C06_unstructured_partial (srt : List (List Int) → List Nat) (hsrt : SortsRows srt)
-    (d : Nat) (cnames pnames : List String) (rsC rsP : String → Nat)
+    (d : Nat) (cnames pnames : List String) (rsC rsP : String → Nat) (dtC dtP : String → DType)
     (whole : MeshFields) (pieces : List MeshFields)
-    (hp : ∀ f ∈ pieces, PieceOk f d cnames pnames rsC rsP)
+    (hp : ∀ f ∈ pieces, PieceOk f d cnames pnames rsC rsP dtC dtP)
     (hconf : whole.mesh.points.Nodup)
     (hcells : ∀ ct, (cellItemsOf whole cnames ct).Perm (pieces.flatMap (cellItemsOf · cnames ct)))
     (hpts1 : ∀ f ∈ pieces, ∀ it ∈ pointItemsOf f pnames, it ∈ pointItemsOf whole pnames)
@@ -127,17 +128,20 @@ theorem C06_unstructured_partial (srt : List (List Int) → List Nat) (hsrt : So
     ∃ m, mergeAll srt pieces = some m ∧
       (∀ ct, (cellItemsOf m cnames ct).Perm (cellItemsOf whole cnames ct)) ∧
       (pointItemsOf m pnames).Perm (pointItemsOf whole pnames) ∧
-      m.mesh.points.Nodup := by
+      m.mesh.points.Nodup ∧
+      -- in particular (`PieceOk.cfDType/pfDType`): every field of the result has the numeric type
+      -- `dtC name` / `dtP name` that it has in every piece
+      PieceOk m d cnames pnames rsC rsP dtC dtP := by
   cases pieces with
   | nil => exact absurd rfl hne
   | cons f rest =>
     simp only [f3Class, Bool.not_eq_false'] at hnew
-    obtain ⟨hok, hc, hpt⟩ := mergeFold_spec srt hsrt d cnames pnames rsC rsP
+    obtain ⟨hok, hc, hpt⟩ := mergeFold_spec srt hsrt d cnames pnames rsC rsP dtC dtP
       (pointItemsOf whole pnames) (pointItems_single_valued whole pnames hconf)
       rest f f.mesh.points (hp f (List.mem_cons_self ..))
       (fun g hg => hp g (List.mem_cons_of_mem _ hg)) (fun _ => Iff.rfl)
       (hpts1 f (List.mem_cons_self ..)) (fun g hg => hpts1 g (List.mem_cons_of_mem _ hg)) hnew
-    refine ⟨rest.foldl (merge1 srt) f, rfl, ?_, ?_, hok.nodup⟩
+    refine ⟨rest.foldl (merge1 srt) f, rfl, ?_, ?_, hok.nodup, hok⟩
     · intro ct
       rw [hc ct]
       exact (hcells ct).symm
